@@ -1,5 +1,8 @@
 //! Shared harness-side helpers. Nothing in here calls into `mp4` except where stated.
+pub mod boxes;
+pub mod fam;
 pub mod model;
+pub mod refw;
 
 /// Big-endian helpers written by hand (the oracle must not share `byteorder` with the crate).
 pub fn be32(b: &[u8], at: usize) -> u32 {
